@@ -974,6 +974,22 @@ func (ex *Exec) fmtArg(verb byte, v Value) *Term {
 // format implements the subset of fmt verbs used by the repository; returns the text and %w operands.
 func (ex *Exec) format(f *Term, args SliceV) (*Term, []Iface) {
 	if !f.IsLit() {
+		// a byte-vector format without arguments: unchanged unless it contains a '%' (decided byte by byte)
+		if bs, ok := seqBytes(f); ok && args.Len == 0 {
+			verb := false
+			for _, b := range bs {
+				if b.IsLit() {
+					if byte(b.I.Int64()) == '%' {
+						verb = true
+					}
+				} else if ex.Branch(Eq(b, ByteLit('%'))) {
+					verb = true
+				}
+			}
+			if !verb {
+				return f, nil
+			}
+		}
 		return ex.fresh("fmtmsg", SSeq, "env"), nil
 	}
 	var parts []*Term
